@@ -34,7 +34,7 @@ TStep == /\ Ev.act # "Result" /\ l' = l + 1
          /\ IF Ev.act = "Write" THEN ReadJson(aux') = ObsG(Ev.g) ELSE g' = ObsG(Ev.g)
          \* the finished graph is the specified graph (P-layer)
          /\ (pc' = "done") => Matches(ObsG(Ev.g), Expected(inp))
-TInit == /\ tid \in 1..Len(Traces) /\ l = 1 /\ inp = Traces[tid].inp /\ InitRest
+TInit == /\ tid \in 1..Len(Traces) /\ l = 1 /\ inp = WithHdrKind(Traces[tid].inp) /\ InitRest
 TNext == /\ l <= Len(Traces[tid].events)
          /\ (TResult \/ TStep)
          /\ tid' = tid
